@@ -13,6 +13,10 @@
      takes a d v             under a the variable with domain d takes the allowed value v (its literal is true);
      one_value a d           it takes exactly one allowed value; same_value / different_values for two variables.
      ok                      the conjunction of the results that ov_theory only assert()s (new_clause inside new_var / new_eq).
+   Scope of the histories (ov_step = None otherwise, and the tie stops comparing there): new_var / new_eq / clauses at root level
+   only (sat_core asserts it), known variables and literals, non-empty domains, and no conflict -- an assume() that conflicts makes
+   sat_core analyse the conflict, learn a clause and backjump (possibly to root level, where e.g. variables created by
+   new_var(lits, vals) can then be left with an empty domain): that is sat_core's conflict handling, property C07.
    Non-vacuity: ex_ov_run (a history with three variables, a singleton, equalities in both orders, assume/pop), ov_init_wf. *)
 From Coq Require Import List Bool Arith Permutation.
 From ORatio Require Import smt.SatEnc smt.Ov proofs.SatEnc_Proofs proofs.Ov_Proofs.
